@@ -78,6 +78,8 @@ var Corpus = map[string][]string{
 	"props": {
 		"a.b = 1\na.c : two\n# c\n! d\nlist.0 = x\nlist.1 = y\nk\\ ey = v\\u0041\\n\nlong = a\\\n   b\n",
 		"a = 1\na.b = 2\n", "x.0.y = 1\nx.2.y = 3\n", "", "=v\n", "k\n", "a..b = 1\n", ".a = 1\n", "a.-1 = 2\na.99 = 3\n", "a = ${a}\n", "a = ${b}\nb = ${a}\n",
+		// brackets in keys: the array form a properties writer may use, and the broken shapes around it
+		"pets[0] = cat\npets[1][0] = dog\n", "a.5] = 1\n7]=v\n", "a[ = 1\nb[] = 2\n[0] = 3\n", "x[1 = 1\ny]0[ = 2\n", "k.[2].j = 1\n9] = 2\n]=3\n", "a.0].b = 1\n",
 	},
 	"lua": {
 		"return {\n\t[\"a\"] = 1;\n\tb = {1, 2, 3};\n\t[\"c d\"] = {x = true, y = nil, z = \"s\"};\n};\n",
